@@ -351,7 +351,7 @@ def zhex(z):
 
 
 def run(ctx):
-    n_in, n_out = (4000, 6000) if not ctx.thorough else (100000, 150000)
+    n_in, n_out = (4000, 6000) if not ctx.thorough else (40000, 120000)
     ctx.cov["rule"] = ("inner: word arrays (boundary lattice incl. carries across all-ones words, spare high zero words, unequal lengths) "
                        "fed to the C digit functions and the extracted model, compared word for word; outer: operand tuples over the "
                        "boundary lattice x every operation through the Scheme API vs the extracted Z spec; a case is non-trivial when "
